@@ -54,7 +54,7 @@ class MaintLine:
                 ctx.count('duplicates_rejected')
                 continue
             self.norders += 1
-            o = self.Order(self.norders, tname, tag, m.items[tname]['wo'][tag][1])
+            o = self.Order(self.norders, tname, tag, (m.items[tname].get('wo') or {}).get(tag, [0, 0, 0])[1])
             ref.queue.append(o)
             self.note(ref.scan(now))
         # hooks of this event: starts first, then ends
@@ -75,8 +75,8 @@ class MaintLine:
                     ctx.report('start_instant', f'{did}/{tag} selected at {o.selected_at!r}, started at {now!r}')
                     return
                 o.started_at = now
-                o.duration = m.items[did]['wo'][tag][0]
-                self.cost += m.items[did]['wo'][tag][2]
+                o.duration = (m.items[did].get('wo') or {}).get(tag, [0, 0, 0])[0]
+                self.cost += (m.items[did].get('wo') or {}).get(tag, [0, 0, 0])[2]
                 self.open[did] = o
                 self.started_now.append(o)
             else:
